@@ -259,6 +259,24 @@ def listWaste (n : Nat) (tok : WTok) (size : Int) : Out WPage :=
     if size < 0 then .err .invalidArgument
     else wastePageOf n n (wasteCount size)
 
+/-- What a waste page shows under a read mask: `none` = the record comes back without its id. -/
+structure WShown where
+  items : List (Option Nat)
+  next : Option Int
+  total : Nat
+  deriving DecidableEq, Repr
+
+def WPage.display (idVisible : Bool) (p : WPage) : WShown :=
+  ⟨p.items.map (fun i => if idVisible then some i else none), p.next, p.total⟩
+
+/-- `ListWasteRecords` with a read mask (honoured since d0c1476): index, count, token and total are computed
+on the stored records; the mask is applied to copies of the returned page only. -/
+def listWasteMasked (n : Nat) (tok : WTok) (size : Int) (idVisible : Bool) : Out WShown :=
+  match listWaste n tok size with
+  | .ok p => .ok (p.display idVisible)
+  | .err c => .err c
+  | .panic => .panic
+
 /-- The RPC as it was before the two fixes. -/
 def listWasteUnfixed (n : Nat) (tok : WTok) (size : Int) : Out WPage :=
   match tok with
